@@ -48,7 +48,7 @@ func VerifC09_GlobalDynamic() {
 		CrossNamespaceServices:          nd.Bool("old.services"),
 	}
 	logger := zzC09Logger{}
-	c := &updater{options: &convtypes.ConverterOptions{DynamicConfig: dyn, Logger: logger}, logger: logger}
+	c := NewUpdater(nil, &convtypes.ConverterOptions{DynamicConfig: dyn, Logger: logger}).(*updater)
 	mapper := NewMapBuilder(logger, defaults).NewMapper()
 	c.buildGlobalDynamic(&globalData{mapper: mapper})
 
